@@ -13,6 +13,7 @@ import itertools
 from ..monitor import bump, install, violation
 
 PROP = "C19"
+ANCHORS = ['dep_logic.specifiers.generic:GenericSpecifier.__and__', 'dep_logic.specifiers.generic:GenericSpecifier.__or__', 'dep_logic.specifiers.generic:GenericSpecifier.__invert__', 'dep_logic.specifiers.generic:GenericSpecifier.__contains__']
 RULE = ("Exhaustive: all ordered pairs of (operator, literal) with operators ==, !=, in, not in and literals from "
         "{'', a, b, ab, ba, abc, bc, linux, linux2, lin, win32, x} (closed under equal / substring / superstring / "
         "disjoint / empty), for & and |, plus ~ of every specifier; the same pairs again through parse_marker on "
